@@ -121,6 +121,39 @@ CHECKS.update({
         ref='4/C18', engine='rv-differential'),
 })
 
+CHECKS.update({
+    'C09': dict(
+        technique='runtime differential monitor over API histories (hostile history vs fresh build) + comparison of the captured uncertainty-set programs',
+        text='The same declared ro/dro model is built by a hostile history (distractor sets, mid-way do_math/dual/solve with '
+             'varying interfaces, late constraints/variables/rules, reused expression objects, redefined supports, second '
+             'ambiguity object) and by a fresh build; optimum and captured support programs must agree; an exception in one '
+             'only is a disagreement.',
+        note='One open known finding (dro dvar declared after constraints raises); same interface for both builds.',
+        ref='4/C09', engine='rv-differential'),
+    'C12': dict(
+        technique='runtime reference-model monitor on pinned models: every query API compared with NumPy',
+        text='Models whose solution is known by construction (equalities / robust equalities / singleton supports per '
+             'event); model.get, x.get, x(), slices, affine/convex/bi-affine calls with assign(), rule coefficients with NaN '
+             'pattern, per-scenario labelling are compared with NumPy values.',
+        note='Pinning determines the solution uniquely; solver accuracy 1e-6 on tiny programs.',
+        ref='4/C12', engine='rv-reference'),
+    'C13': dict(
+        technique='runtime monitors: identification optima, structural invariant on rule_var/to_affine output, behavioural probes, icontract on comb_set/event_dict, illegal-declaration table',
+        text='Optimum of identification problems pins down the event partition and the dependency mask (all partitions of '
+             '<= 4/5 scenarios, random declaration orders/labels); solver-column sharing across scenarios iff same event; '
+             'z-coefficient pattern equals declared mask; rule value does not move with undeclared components; refinement '
+             'of combined expressions for all partition pairs; illegal declarations raise.',
+        note='Identification data are generic so the optimum is unique in value.',
+        ref='4/C13', engine='rv-state'),
+    'C15': dict(
+        technique='runtime metamorphic monitor: base model vs rewritten models, all really solved',
+        text='min f <-> -max -f, declaration/term/row order, a<=b <-> -b<=-a <-> b>=a incl. reflected ndarray, == <-> two '
+             'inequalities, bounds as objects/rows/inf-norm/abs/loops, rescaling, set argument shapes, operand order, ro <-> '
+             'single-scenario dro, ro <-> dro front end; optima must agree.',
+        note='Same interface for a base model and its rewrites.',
+        ref='4/C15', engine='rv-differential'),
+})
+
 PENDING = {}
 
 
